@@ -73,11 +73,15 @@ class C15Episode(Episode):
             props = {'name': nm}
             if op.get('nostop'):
                 props['nostop'] = True
-            r = w.call('rm', props, waiting=True)
+            r = w.call('rm', props, waiting=not op.get('nowait'))
             self.fired['req:rm'] += 1
             o = r.reply
             ok = isinstance(o, dict) and o.get('status') == 'ok'
             key = nm.lower()
+            if op.get('nowait'):
+                # answered at once; the stop of its workers is still going on
+                self.mid_check(i, 'rm %r (in progress)' % nm)
+                w.settle(extra_checks=0)
             if ok:
                 if key not in self.model:
                     self.viol('rm_unknown_accepted', 'rm %r answered ok, no '
@@ -113,10 +117,18 @@ class C15Episode(Episode):
             self.settle_and_check(i, '%s %r' % (kind, nm))
         elif kind == 'reloadconfig':
             self.write_ini(op['file'])
-            r = w.call('reloadconfig', {}, waiting=True)
+            r = w.call('reloadconfig', {}, waiting=not op.get('nowait'))
             self.fired['req:reloadconfig'] += 1
             o = r.reply
-            if isinstance(o, dict) and o.get('status') == 'ok':
+            if op.get('nowait'):
+                self.mid_check(i, 'reloadconfig (in progress)')
+                w.settle(extra_checks=0)
+            if op.get('nowait'):
+                # answered ok before anything was done: whether the reload
+                # went through is not known - resynchronise from the views
+                self.model = None
+                self.settle_and_check(i, 'reloadconfig (not waited for)')
+            elif isinstance(o, dict) and o.get('status') == 'ok':
                 # the file wins for watchers it defines; watchers added by
                 # request and absent from the file are removed as well
                 self.model = dict((x['name'].lower(), {'name': x['name']})
@@ -128,6 +140,40 @@ class C15Episode(Episode):
                 self.settle_and_check(i, 'reloadconfig (error)')
 
     # -------------------------------------------------------------- oracle
+    def mid_check(self, i, what):
+        """the four views while an operation is still in progress: they are
+        answered at once (read-only requests) and must describe the same set
+        of watchers - whichever set that is at this instant"""
+        if self.stopped() or self.world.daemon_gone():
+            return
+        for rnd in range(2):
+            lst = self.ask('list', {})
+            sts = self.ask('status', {})
+            stats = self.ask('stats', {})
+            nw = self.ask('numwatchers', {})
+            lst2 = self.ask('list', {})
+            try:
+                v = {'list': sorted(x.lower() for x in lst['watchers']),
+                     'status': sorted(x.lower() for x in sts['statuses']),
+                     'stats': sorted(x.lower() for x in stats['infos'])}
+                v2 = sorted(x.lower() for x in lst2['watchers'])
+                num = nw['numwatchers']
+            except (TypeError, KeyError):
+                return
+            if v2 != v['list']:
+                continue          # the set changed while we were asking
+            self.probes['mid_operation_checks'] += 1
+            if self.world.arbiter._exclusive_running_command is not None \
+                    or self.world.outstanding():
+                self.probes['mid_operation_checks_in_flight'] += 1
+            if not (v['list'] == v['status'] == v['stats']) or \
+                    num != len(v['list']):
+                self.viol('views_disagree_during_operation',
+                          '%s: list %r, status %r, stats %r, numwatchers %r'
+                          % (what, v['list'], v['status'], v['stats'], num),
+                          once=(i, 'mid'), op=what.split()[0])
+            return
+
     def settle_and_check(self, i, what, add_ok=None, add_name=None,
                          before=None):
         w = self.world
@@ -216,7 +262,9 @@ class C15(Prop):
             'operation, at quiescence, list / status / stats / numwatchers '
             'are compared with each other and with a reference directory; '
             'case variants must reach the same watcher; removed names must be '
-            'reusable. non-trivial = at least one add or rm of a name that '
+            'reusable. 40 % of the rm and reloadconfig requests are not waited '
+            'for and the four views are compared with each other while the '
+            'operation is still in progress. non-trivial = at least one add or rm of a name that '
             'collides ignoring case, is empty, or follows a reloadconfig; '
             'distinct = (operation kind, abstract daemon state) hash')
     chunk = 100
@@ -228,7 +276,7 @@ class C15(Prop):
             if n and n.lower() not in [x.lower() for x in names]:
                 names.append(n)
         return [{'name': n, 'np': rng.choice([0, 1, 2]),
-                 'g': rng.choice([0, 0.05, 0.3])} for n in names]
+                 'g': rng.choice([0, 0.05, 0.3, 2.0])} for n in names]
 
     def gen(self, rng, tier, seed):
         cfg = {'seed': seed, 'check_delay': rng.choice([0.3, 1.0, 5.0]),
@@ -257,7 +305,8 @@ class C15(Prop):
                 ops.append({'op': 'c15', 'kind': 'rm', 'name': nm,
                             'case': rng.choice([None, 'upper', 'lower',
                                                 'swap']),
-                            'nostop': rng.random() < 0.25})
+                            'nostop': rng.random() < 0.25,
+                            'nowait': rng.random() < 0.4})
             elif x < 0.8:
                 ops.append({'op': 'c15', 'kind': rng.choice(['start',
                                                              'stop']),
@@ -265,7 +314,8 @@ class C15(Prop):
                                 [None, 'upper', 'lower', 'swap'])})
             else:
                 ops.append({'op': 'c15', 'kind': 'reloadconfig',
-                            'file': self.gen_file(rng)})
+                            'file': self.gen_file(rng),
+                            'nowait': rng.random() < 0.4})
         return {'cfg': cfg, 'ops': ops}
 
     def run(self, case):
